@@ -1028,6 +1028,16 @@ impl Gen {
             }
         }
         while !self.em.full() {
+            if self.rng.pct(10) {
+                // two reforming calendars a few days apart (same month, same year, often both with a gap that crosses a
+                // year end): any comparison key coarser than the reformation day itself confuses them
+                let c = self.valid_ctx();
+                let d = self.rng.range(-12, 12);
+                let r2 = (c.r + d).clamp(RMIN, RMAX);
+                e!(self, "cal_cmp R{} R{}", c.r.clamp(RMIN, RMAX), r2);
+                e!(self, "cal_cmp R{} R{}", r2, c.r.clamp(RMIN, RMAX));
+                continue;
+            }
             if self.rng.pct(15) {
                 let a = if self.rng.pct(50) {
                     self.rng.pick(&pool).clone()
